@@ -369,6 +369,53 @@ Theorem C08_read_dwarf_file_refines : forall le is64 em img e_shoff table sectio
 Proof. exact read_dwarf_file_refines. Qed.
 Print Assumptions C08_read_dwarf_file_refines.
 
+(* ---------------- machines outside the supported set: rejected, never skipped *)
+Theorem C08_psabi_unlisted : forall em rela typ,
+  ~ In em listed_machines -> psabi_lookup em rela typ = None.
+Proof. exact psabi_unlisted. Qed.
+Print Assumptions C08_psabi_unlisted.
+
+(* an object for a machine that is not listed and for which the code reaches no recipe table,
+   whose debug section has a NON-EMPTY relocation table: loading with relocation enabled raises the
+   relocation error (as the reference application does); the bytes are not handed out unrelocated *)
+Theorem C08_unsupported_machine_rejected :
+  forall le is64 em img secs section rs symtab (rela : bool) e es syms pre tail pre2 tail2,
+  ~ In em listed_machines -> family_for em rela = None ->
+  find_relocations_for_section secs (s_name section) = Some rs ->
+  s_type rs = (if rela then SHT_RELA else SHT_REL) ->
+  s_entsize rs = rel_entsize is64 (is64 && is_mips em) rela ->
+  nth_error secs (Z.to_nat (s_link rs)) = Some symtab ->
+  s_entsize symtab = sym_entsize is64 -> s_size symtab = zlen (encode_symtab le is64 syms) ->
+  img = pre ++ encode_table le is64 (is64 && is_mips em) rela (e :: es) ++ tail ->
+  s_off rs = zlen pre -> s_size rs = zlen (encode_table le is64 (is64 && is_mips em) rela (e :: es)) ->
+  img = pre2 ++ encode_symtab le is64 syms ++ tail2 -> s_off symtab = zlen pre2 ->
+  forallb (sym_wf is64) syms = true ->
+  forallb (rent_wf is64 (is64 && is_mips em) rela) (e :: es) = true ->
+  read_dwarf_section le is64 em img secs section true = Err EReloc
+  /\ spec_apply_all le is64 em rela (map snd syms)
+                    (firstn (Z.to_nat (s_size section)) (zskipn (s_off section) img)) (e :: es) = Err EReloc.
+Proof. exact read_dwarf_section_unsupported_machine. Qed.
+Print Assumptions C08_unsupported_machine_rejected.
+
+(* ---------------- S is st_value, whatever kind of symbol it is *)
+Theorem C08_symbol_value_any_type : forall le is64 name value size sbind styp ol ov shndx pre tail,
+  sym_any_wf is64 name value size sbind styp ol ov shndx = true ->
+  symtab_value le is64
+    (pre ++ encode_layout (spec_Elf_Sym le is64) (sym_vals_of is64 name value size sbind styp ol ov shndx) ++ tail)
+    (zlen pre) (sym_entsize is64) 0
+  = Ok value.
+Proof. exact symbol_value_any_type. Qed.
+Print Assumptions C08_symbol_value_any_type.
+
+(* ---------------- through .gnu_debuglink: the caller's flag reaches the separate debug file *)
+Theorem C08_debuglink_flag_forwarded : forall le is64 em img secs section own flag,
+  dwarf_via_debuglink true false true (read_dwarf_section le is64 em img secs section) own flag
+  = read_dwarf_section le is64 em img secs section flag
+  /\ dwarf_via_debuglink true false true (read_dwarf_section le is64 em img secs section) own false
+     = Ok (firstn (Z.to_nat (s_size section)) (zskipn (s_off section) img)).
+Proof. exact debuglink_flag_forwarded. Qed.
+Print Assumptions C08_debuglink_flag_forwarded.
+
 (* ---------------- the ELFFile object: get_dwarf_info() called repeatedly, in any order *)
 (* for EVERY image and flag sequence: the n-th call answers as a first call with its own flag
    would, and the file image the object holds is unchanged *)
@@ -470,3 +517,16 @@ Example C08_ex_many_sections :
   let table := mkSec [] 0 0 3 0 0 :: [mkSec [46; 114; 101; 108; 46; 120] SHT_REL 0 0 0 8; mkSec [46; 120] 1 0 0 0 0] in
   iter_sections 64 0 table = table /\ find_relocations_for_section (iter_sections 64 0 table) [46; 120] <> None.
 Proof. repeat split; try (vm_compute; reflexivity). vm_compute. discriminate. Qed.
+
+(* ARM: R_ARM_ABS32 against a Thumb function symbol (odd st_value) adds the value as it stands;
+   RISC-V (not listed, no recipe table in the code): rejected *)
+Example C08_ex_arm_thumb_and_riscv :
+  spec_apply_all true false EM_ARM false [0; 0x8001] [4; 0; 0; 0; 9; 9] [mkRent 0 1 2 0 0 0 0]
+  = Ok [5; 0x80; 0; 0; 9; 9] /\
+  sym_any_wf false 7 0x8001 4 1 2 0 0 1 = true /\
+  ~ In 243 listed_machines /\ family_for 243 true = None /\ family_for 243 false = None /\
+  spec_apply_all true true 243 true [0; 16] [0; 0; 0; 0; 0; 0; 0; 0] [mkRent 0 1 2 0 0 0 0] = Err EReloc.
+Proof.
+  repeat split; try (vm_compute; reflexivity).
+  vm_compute. intros H. repeat (destruct H as [H|H]; [discriminate H|]). exact H.
+Qed.
